@@ -201,10 +201,10 @@ def gen_plan(exe, seed, prop):
     return subprocess.run([exe, '--prop', prop, '--gen', str(seed)], capture_output=True, text=True).stdout
 
 
-def run_batch(exe, prop, first, count, tag):
-    """Split [first, first+count) over NWORK engine processes; return (violations, summary, hashes)."""
+def run_batch(exe, prop, first, count, tag, nworkers=None):
+    """Split [first, first+count) over NWORK engine processes; return (violations, summary, hashes in seed order)."""
     os.makedirs(os.path.join(BUILD, 'out'), exist_ok=True)
-    nw = max(1, min(NWORK, count // 50 if count >= 50 else 1))
+    nw = max(1, min(nworkers or NWORK, count // 50 if count >= 50 else 1))
     per = (count + nw - 1) // nw
     procs = []
     for w in range(nw):
@@ -709,6 +709,63 @@ def main():
             print('VIOLATION property=%s replay=%s' % (h['property'], a[1]))
             return 1
         return 0 if o['kind'] == 0 else 2
+    if cmd == 'selftest-determinism':
+        # every seed twice (three times), in different processes, at different worker counts: identical trace hashes
+        n = int(a[1]) if len(a) > 1 else 5000
+        bad = 0
+        for engine in sorted(ENGINES):
+            if not engine_exists(engine):
+                continue
+            exe = build_engine(engine)
+            for prop in [p for p in ENGINES[engine]['props'] if p != 'C14']:
+                cnt = max(200, n // 20) if engine == 'entropy' else n
+                runs = [run_batch(exe, prop, 7 << 32, cnt, 'det', nworkers=w)[2] for w in (16, 3, 11)]
+                same = all(list(r) == list(runs[0]) for r in runs[1:])
+                print('%-10s %s: %d seeds x 3 executions at 16/3/11 workers: %s' % (engine, prop, len(runs[0]), 'identical' if same else 'DIFFERENT'))
+                if not same:
+                    bad += 1
+                    for i, (x, y, z) in enumerate(zip(*runs)):
+                        if not (x == y == z):
+                            print('   first divergence at seed index %d: %x %x %x' % (i, x, y, z))
+                            break
+        return 2 if bad else 0
+    if cmd == 'selftest-mutants':
+        # selftest-mutants [substring...]: every mutants/*.patch and seeded/*/patch.diff must be caught by its property's quick check
+        import glob
+        todo = []
+        for f in sorted(glob.glob(os.path.join(VERIF, 'mutants', '*.patch'))):
+            todo.append((os.path.basename(f)[:-6], f, os.path.basename(f).split('.')[-2]))
+        for d in sorted(glob.glob(os.path.join(VERIF, 'seeded', '*'))):
+            mp = os.path.join(d, 'meta.json')
+            if os.path.exists(mp):
+                todo.append(('seeded-' + os.path.basename(d), os.path.join(d, 'patch.diff'), json.load(open(mp))['property']))
+        if len(a) > 1:
+            todo = [t for t in todo if any(x in t[0] for x in a[1:])]
+        results = {}
+
+        def one(t):
+            name, path, prop = t
+            r = subprocess.run([sys.executable, os.path.abspath(__file__), 'mutant', path, prop],
+                               env=dict(os.environ, VERIF_WORKERS='8'), capture_output=True, text=True)
+            line = [l for l in r.stdout.splitlines() if l.startswith(prop + ':')]
+            return name, prop, r.returncode, (line[0] if line else r.stdout[-300:])
+
+        with cf.ThreadPoolExecutor(max_workers=3) as ex:
+            for name, prop, rc, line in ex.map(one, todo):
+                status = 'CAUGHT' if rc == 0 else ('MISSED' if rc == 1 else 'ERROR')
+                m = re.search(r'oracle=(\S+)', line)
+                results[name] = {'property': prop, 'status': status, 'oracle': m.group(1) if m else None}
+                print('%-40s %s %-7s %s' % (name, prop, status, (m.group(1) if m else line[:160])), flush=True)
+        os.makedirs(os.path.join(VERIF, 'mutants'), exist_ok=True)
+        old = {}
+        rp = os.path.join(VERIF, 'mutants', 'RESULTS.json')
+        if os.path.exists(rp):
+            old = json.load(open(rp))
+        old.update(results)
+        json.dump(old, open(rp, 'w'), indent=1, sort_keys=True)
+        missed = [n for n, r in results.items() if r['status'] != 'CAUGHT']
+        print('%d mutants, %d not caught: %s' % (len(results), len(missed), missed))
+        return 1 if missed else 0
     if cmd == 'witness':
         # witness ENGINE PROP SEED OUTFILE [AFSTEP,K,P]: gate + minimise the violation of SEED and store it
         engine, prop, seed, out = a[1], a[2], int(a[3]), a[4]
